@@ -38,10 +38,18 @@ S_CLASSES = ["ReservablePriorityReqStore", "ReservableReqStore", "BufferStore", 
 S_WEIGHTS = {"rp": 7, "rg": 6, "put": 8, "get": 6, "cp": 1, "cg": 2, "settle": 1, "adv": 7}
 
 
+def _with_reports(spec):
+    # half of the factories are also asked for an intermediate report (twice at the same instant) before the final one
+    sd = spec.get("seed", 0)
+    if sd % 2 == 0:
+        spec = dict(spec, reports=[round(spec["T"] * [0.37, 0.61, 0.5, 0.83][(sd // 2) % 4], 3)])
+    return spec
+
+
 def strategy(tier):
     from hypothesis import strategies as st
     from .. import gen_store
-    f = gen_factory.factories(PROFILE)
+    f = gen_factory.factories(PROFILE).map(_with_reports)
     return st.one_of(f, f, f, gen_store.case(S_CLASSES, S_WEIGHTS, max_ops=40, macros=4, extra=2))
 
 
@@ -97,6 +105,30 @@ class TruthOracle(FOracle):
                 self.recv.setdefault(nid, []).append((e.t, it, getattr(it, "timestamp_creation", None)))
             else:
                 self.entered.append((e.t, it, nid))
+
+    def on_report(self, f, rt):
+        """an intermediate report at rt < T: the edge finalisers may be called at any time, any number of times; each report
+        must equal the integral of the true content over [0, rt] / rt"""
+        for rep_no in (0, 1):
+            for eid, edge in f.edges.items():
+                kind = f.edge_spec[eid]["kind"]
+                try:
+                    getattr(edge, FINAL[kind])(rt)
+                except Exception as e:   # noqa
+                    self.v((kind, "avg_occupancy", "finalise_raises"), "%s.%s(%s) raised %s: %s (intermediate report)" % (eid, FINAL[kind], rt, type(e).__name__, e))
+                    continue
+                rep = edge.stats[AVG_KEY[kind]]
+                integ, occ, last = 0.0, 0, 0.0
+                for (t, dlt) in self.changes.get(eid, []):
+                    integ += occ * (t - last)
+                    last = t
+                    occ += dlt
+                integ += occ * (rt - last)
+                exp = integ / rt if rt > 0 else 0.0
+                if not near(rep, exp, rt):
+                    self.v((kind, "avg_occupancy", "intermediate_report"),
+                           "%s: report %s at t=%s says %r, integral of (puts-gets)/t = %r" % (eid, "repeated" if rep_no else "taken", rt, rep, exp))
+        self.reported = True
 
     def after_kernel_event(self, f):
         # the node entry stamp of the object a node has just taken is written right after the get, inside the same kernel step
